@@ -12,15 +12,69 @@ NOT_APPLICABLE = {
 
 # id -> dict(text, note, technique, design_ref, category)
 CHECKS = {
+    "C04": dict(
+        category="other",
+        text="Decides structural clauses: all three places that turn a filter operator into a candidate value use a "
+             "shape containing every value that satisfies the operator (sibling tables + reference of sound shapes); "
+             "hint entry points return no information before reading filters when filters do not bind; the "
+             "within_optional_scope formula of every look-ahead NeighborInfo (truth table over inherited scope, "
+             "edge optionality, fold-needs-an-element); is_mandatory and fold_requires_at_least_one_element tables. "
+             "Not decided: value-level over-approximation for all inputs (that part rests on C06).",
+        note="trusted: rustc resolution/typeck; Range/CandidateValue operations as decided under C06; one genuine "
+             "defect is listed in known_findings.json (a pinned test asserts the defective hint)",
+        technique="static analysis: dispatch-table and boolean-formula extraction over rustc typed HIR, provenance of struct fields",
+        design_ref="DESIGN.md section 4 C04"),
+    "C06": dict(
+        category="other",
+        text="Complete decision tables: Range/CandidateValue code touches payload values only through comparisons, "
+             "is_null, clone and move (anything else makes the evaluator fail closed), so the behaviour is a function "
+             "of the order type of the values involved. The check abstractly evaluates the typed AST of contains, "
+             "intersect, degenerate, normalize, exclude_single_value on representatives of every order class "
+             "(114 candidate shapes, 12996 pairs) and compares membership over a dense universe with the set definitions.",
+        note="trusted: rustc typed HIR; the payload order is total on non-null values (C08); membership compared over a "
+             "dense order abstraction; the mini-evaluator's model of Vec::retain/contains/pop, mem::swap, vec!",
+        technique="static analysis: abstract interpretation of the typed HIR over order classes (exhaustive decision tables)",
+        design_ref="DESIGN.md section 4 C06"),
     "C07": dict(
         category="other",
-        text="Decides structural clauses only: both Operation dispatch tables map each operator to the function "
-             "whose role (read off its body: which comparison / std string primitive it uses) is the operator's "
-             "definition, negated forms to `!f`; name tables are inverse bijections; each ordering function and "
-             "its slow path use one comparison operator; mixed-sign branch constants and null arms; optional "
-             "pass-through truth table. Not decided: the 2^128 integer pairs themselves (std's conversions are trusted).",
-        note="trusted: rustc resolution/typeck, std integer/str primitives, regex crate; roles are recognised "
-             "from resolved callees, not names",
-        technique="static analysis: dispatch-table extraction over rustc typed HIR (custom rustc_private driver) + truth tables",
+        text="Both Operation dispatch tables map each operator to a function with the right role, negated forms to `!f`; "
+             "the operator-name tables are inverse bijections; the functions dispatched for =,<,<=,>,>= are decided "
+             "semantically: their typed AST is abstractly evaluated on boundary representatives of every integer class "
+             "(negative, zero, i64::MAX, beyond i64::MAX, u64::MAX; mixed signed/unsigned), same-type scalars and null, "
+             "and compared with the mathematical definition; optional pass-through truth table. Not decided: string "
+             "primitives and regex (std / regex crate), list operands.",
+        note="trusted: rustc resolution/typeck, std integer comparisons and TryFrom, str primitives, regex crate",
+        technique="static analysis: dispatch-table extraction + abstract interpretation of comparison functions over integer classes",
         design_ref="DESIGN.md section 4 C07"),
+    "C14": dict(
+        category="other",
+        text="Decides that no process-dependent input can reach a compiled query, an error or a row: no hash container "
+             "inside compared/serialized/returned types (field walk from IRQuery, IndexedQuery, the error enums, traces); "
+             "every HashMap/HashSet iteration in trustfall_core (found by receiver type, local or foreign) flows into an "
+             "order-insensitive consumer (sort, BTree/Hash collection, len/any/all/min/max, collect+sort) or an audited "
+             "site; no call into time/env/thread-id/RandomState::new, no pointer-to-integer cast; rows are BTreeMaps. "
+             "Not decided: determinism of the adapter itself.",
+        note="trusted: BTreeMap key order, itertools::sorted*, std sort; three audited iteration sites carry their reason in the rule table",
+        technique="static analysis: type-structure walk + consumer classification of hash iterations over typed HIR + MIR call scan",
+        design_ref="DESIGN.md section 4 C14"),
+    "C24": dict(
+        category="proof",
+        text="r1 is the property's first clause itself: Send + Sync (+ 'static) obligations for Schema, IndexedQuery, IRQuery, "
+             "IRQueryComponent, InterpretedQuery, FieldValue, Type, EdgeParameters, FrontendError, Output (and Arc of the first "
+             "two) are discharged by rustc's trait solver on a witness crate type-checked against the current tree; "
+             "compile_fail,E0277 twins (thorough) show the witness can fail. r2/r3 (structural): no cell/lock/atomic/Rc/raw "
+             "pointer in any local ADT reachable from those types and no mutable/thread-local statics, so concurrent use only "
+             "reads shared values and equals sequential use.",
+        note="trusted: rustc's auto-trait solver; foreign types are opaque to r2 (listed in evidence); r2/r3 are structural, not a proof of result equality",
+        technique="type-level witness (rustc trait solver, compile_fail twins) + ADT field walk",
+        design_ref="DESIGN.md section 4 C24"),
+    "C08": dict(
+        category="other",
+        text="Complete table of <FieldValue as PartialEq>::eq and PartialOrd::partial_cmp over boundary representatives "
+             "of every scalar class, by abstract evaluation of the typed AST; the algebraic laws (totality, eq iff Equal, "
+             "reflexive/symmetric/transitive, antisymmetry, transitivity, numeric agreement on mixed integers) are "
+             "checked on the table; discriminant table equals declaration order. Lists are not enumerated.",
+        note="trusted: std integer comparison / TryFrom; floats finite; slice comparison is lexicographic over the element order",
+        technique="static analysis: abstract interpretation of the typed HIR over value classes + law checking on the finite table",
+        design_ref="DESIGN.md section 4 C08"),
 }
